@@ -40,6 +40,14 @@ DecO == [op |-> "dec"]
 SemiO == [op |-> "semi"]
 SepO(opstr) == [op |-> "sep", r |-> VB(SubSeq(opstr, 1, 1))[1]]     \* SeparateOperator(operator)
 
+\* escapeDoubleQuotes of ast.go (StringLiteral.WriteTo): escape pairs are copied, bare double quotes escaped
+RECURSIVE EscDQ(_, _)
+EscDQ(v, i) ==
+  IF i > Len(v) THEN <<>>
+  ELSE IF v[i] = 92 THEN (IF i + 1 <= Len(v) THEN <<92, v[i + 1]>> \o EscDQ(v, i + 2) ELSE <<92>>)
+  ELSE IF v[i] = 34 THEN <<92, 34>> \o EscDQ(v, i + 1)
+  ELSE <<v[i]>> \o EscDQ(v, i + 1)
+
 \* literal text of atoms: op holds a vocabulary string
 RECURSIVE Emit(_), EmitList(_, _), EmitObj(_, _), EmitParams(_, _), EmitStmts(_, _, _)
 \* writeParenthesised: like a GroupedExpression
@@ -92,7 +100,7 @@ Emit(n) ==
     [] n.k \in {"id", "num", "flt"} -> <<S(n.op)>>
     [] n.k = "bool" -> <<S(n.op)>>
     [] n.k = "null" -> <<S("null")>>
-    [] n.k = "str" -> <<Ru("\""), S(n.op), Ru("\"")>>
+    [] n.k = "str" -> <<Ru("\""), SB(EscDQ(VB(n.op), 1)), Ru("\"")>>
     [] n.k = "raw" -> <<Ru("`"), S(n.op), Ru("`")>>
     [] n.k = "bin" ->
          LET my == PPrec(n) IN
